@@ -15,7 +15,7 @@ type snap = {
   cb : n;
 }
 
-type nodeinfo = { self : id; has_cb : bool; pred : lpred; fdc : fdconfig }
+type nodeinfo = { self : id; has_cb : bool; pred : lpred; fdc : fdconfig; cluster : bytes }
 
 let parse_status (c : cursor) : status =
   let st = next_int c in
@@ -262,6 +262,12 @@ let on_proc (idx : int) (msg : message) (obs : string) : unit =
                 check "C16" same "a SYN of another cluster changed membership or data"
             | _ -> ())
        | None -> ());
+      (* C16: a SYN carrying another cluster id is answered with a rejection only *)
+      (match msg with
+       | Syn (cl, _) when not (bytes_eqb cl info.cluster) ->
+           check "C16" (match o.reply with Some BadCluster -> true | _ -> false)
+             "a SYN with a different cluster id was not answered by BadCluster"
+       | _ -> ());
       (* C07: size and shape of the reply *)
       (match o.reply with
        | Some r ->
